@@ -35,7 +35,7 @@ RULE = ("seeded scripts; distinct = canonical script JSON; non-trivial = >=1 fau
 REQUIRED_BUCKETS = ["fault:state", "fault:relay", "fault:cap", "fault:crit", "fault:stale", "inv-fault:state",
                     "inv-fault:crit", "silence>maxage:bat", "silence>maxage:inv", "silence<maxage", "set-power-failed",
                     "set-power-succeeded", "blocked-twice(back-off)", "back-off-capped", "recovered", "uncertain-seen",
-                    "pool-fallback-to-uncertain"]
+                    "pool-fallback-to-uncertain", "pool-tier", "pool-fallback-to-uncertain(live)"]
 REQUIRED_COUNTERS = ["status_reports_checked", "block_calls_observed", "scripts_run"]
 ASSUMPTIONS = ["virtual clock; fake API"]
 
@@ -51,6 +51,8 @@ def budget(tier: str) -> dict[str, Any]:
 
 
 def gen(rng: Any, tier: str, i: int) -> Any:
+    if rng.random() < 0.15:
+        return gen_pool(rng)
     ev: list[list[Any]] = []
     t = 0.0
     bsil = isil = 0.0
@@ -190,6 +192,9 @@ async def _drive(case: dict[str, Any], out: dict[str, Any]) -> None:
 
 
 def check(case: dict[str, Any], rec: Any) -> None:
+    if case.get("tier") == "pool":
+        check_pool(case, rec)
+        return
     out: dict[str, Any] = {"statuses": [], "blocks": [], "unblocks": []}
     mon = LoopMonitor()
     run_virtual(lambda: _drive(case, out), monitor=mon)
@@ -367,6 +372,104 @@ def check(case: dict[str, Any], rec: Any) -> None:
             break
     rec.nontrivial(bool(dis) and nontrivial_fail)
     rec.observed({"reports": statuses[:12], "block_calls": got_blocks[:8]})
+
+
+# ------------------------------------------------------------------ pool tier
+# ComponentPoolStatusTracker over several batteries (real BatteryStatusTrackers underneath): at quiescent
+# checkpoints the pool status must list exactly the batteries whose own data proves them healthy as working,
+# the blocked ones as uncertain, and get_working_components must fall back to uncertain only when nothing works.
+
+
+def gen_pool(rng: Any) -> dict[str, Any]:
+    nb = rng.randint(2, 4)
+    phases = []
+    for _ in range(rng.randint(2, 5)):
+        phases.append({"healthy": [rng.random() < 0.7 for _ in range(nb)],
+                       "fail": [rng.random() < 0.3 for _ in range(nb)],
+                       "fault": [rng.choice(["state", "relay", "cap", "crit", "silence", "inv-state"]) for _ in range(nb)]})
+    return {"tier": "pool", "nb": nb, "phases": phases}
+
+
+async def _drive_pool(case: dict[str, Any], out: dict[str, Any]) -> None:
+    from frequenz.channels import Broadcast
+
+    from frequenz.sdk.microgrid._power_distributing._component_pool_status_tracker import \
+        ComponentPoolStatusTracker
+    from frequenz.sdk.microgrid._power_distributing._component_status import BatteryStatusTracker
+
+    nb = case["nb"]
+    groups = [([10 + b], [100 + b]) for b in range(nb)]
+    comps, conns = fakes.battery_topology(groups)
+    api = fakes.install_connection_manager(comps, conns)
+    api.rx_limit = 500
+    ch = Broadcast(name="pool", resend_latest=True)
+    rx = ch.new_receiver(limit=2000)
+    pool = ComponentPoolStatusTracker({10 + b for b in range(nb)}, ch.new_sender(), timedelta(seconds=MAXAGE),
+                                      timedelta(seconds=MAXBLOCK), BatteryStatusTracker)
+    await asyncio.sleep(0.01)
+    bmsg, imsg = _msgs()
+    import dataclasses
+
+    for ph in case["phases"]:
+        # 3 seconds of data at 0.5 s cadence in this phase's health pattern (silence: nothing is sent, 6 s)
+        dur = 6.5 if any(f == "silence" and not h for f, h in zip(ph["fault"], ph["healthy"])) else 3.0
+        t = 0.0
+        while t < dur:
+            for b in range(nb):
+                h, f = ph["healthy"][b], ph["fault"][b]
+                if not h and f == "silence":
+                    continue
+                bm = bmsg(None if h or f == "inv-state" else f, 0.0)
+                im = imsg("state" if (not h and f == "inv-state") else None, 0.0)
+                await api.feed(10 + b, dataclasses.replace(bm, component_id=10 + b))
+                await api.feed(100 + b, dataclasses.replace(im, component_id=100 + b))
+            await asyncio.sleep(0.5)
+            t += 0.5
+        failed = {10 + b for b in range(nb) if ph["fail"][b]}
+        if failed:
+            await pool.update_status(set(), failed)
+            await asyncio.sleep(0.05)
+        last = None
+        while rx._q:  # noqa: SLF001
+            last = rx.consume()
+        snap = None if last is None else {"working": sorted(last.working), "uncertain": sorted(last.uncertain)}
+        cur = pool._current_status  # noqa: SLF001
+        asked = {10 + b for b in range(nb)}
+        out["checkpoints"].append({"phase": ph, "last_emitted": snap,
+                                   "current": {"working": sorted(cur.working), "uncertain": sorted(cur.uncertain)},
+                                   "get_working": sorted(pool.get_working_components(asked))})
+        # let blocks expire and clear them with a success so that the next phase starts clean
+        await asyncio.sleep(MAXBLOCK + 1.0)
+        await pool.update_status({10 + b for b in range(nb)}, set())
+        await asyncio.sleep(0.05)
+    await pool.stop()
+
+
+def check_pool(case: dict[str, Any], rec: Any) -> None:
+    out: dict[str, Any] = {"checkpoints": []}
+    run_virtual(lambda: _drive_pool(case, out))
+    rec.bucket("pool-tier")
+    nb = case["nb"]
+    for cp in out["checkpoints"]:
+        ph = cp["phase"]
+        healthy = {10 + b for b in range(nb) if ph["healthy"][b]}
+        failed = {10 + b for b in range(nb) if ph["fail"][b]}
+        exp_working = sorted(healthy - failed)
+        exp_uncertain = sorted(healthy & failed)
+        rec.count("pool_checkpoints")
+        w = {"phase": ph, "observed": cp, "expected_working": exp_working, "expected_uncertain": exp_uncertain}
+        if cp["current"]["working"] != exp_working or cp["current"]["uncertain"] != exp_uncertain:
+            rec.violation("pool-status-differs-from-per-battery-health", w)
+            continue
+        if cp["last_emitted"] is not None and cp["last_emitted"] != cp["current"]:
+            rec.violation("pool-status-last-notification-differs-from-current-status", w)
+        exp_get = exp_working or exp_uncertain
+        if exp_uncertain and not exp_working:
+            rec.bucket("pool-fallback-to-uncertain(live)")
+        if cp["get_working"] != exp_get:
+            rec.violation("pool-get_working_components-wrong", {**w, "expected": exp_get})
+    rec.nontrivial(True)
+    rec.observed({"tier": "pool", "checkpoints": out["checkpoints"][:2]})
 
 
 FINDINGS: dict[str, Any] = {}
